@@ -48,11 +48,11 @@ Definition caps_of (tx : txvars) : list (option bytes) :=
   map (fun i => tx_get tx (itoa (N.of_nat i))) (seq 0 10).
 
 Definition check_caps (r : bool * list bytes) (capturing res : bool) (caps : list (option bytes)) : bool :=
-  Bool.eqb (fst r) res && list_eqb opt_bytes_eqb (caps_of (store_captures capturing [] 0 (snd r))) caps.
+  Bool.eqb (fst r) res && list_eqb opt_bytes_eqb (caps_of (store_captures capturing tx_init 0 (snd r))) caps.
 
 Definition ok (c : case) : bool :=
   match c with
-  | CMop o arg tx v res => opt_bool_eqb (run_mop o arg tx v) res
+  | CMop o arg tx v res => opt_bool_eqb (run_mop o arg (tx ++ tx_init) v) res
   | CPm t arg v cap res caps => check_caps (pm_eval (pm_phrases t arg) cap v) cap res caps
   | CPmf t data v cap res caps => check_caps (pm_eval (pmf_phrases t data) cap v) cap res caps
   | CPmd ps v cap res caps => check_caps (pm_eval ps cap v) cap res caps
@@ -68,7 +68,7 @@ Definition ok (c : case) : bool :=
               end) known
     && (negb known || (bytes_eqb op_raw fn && bytes_eqb arg data && Bool.eqb (op_negated op_raw) neg))
   | CRule o t m cap tx v res =>
-    match rule_eval o t m cap tx v, res with
+    match rule_eval o t m cap (tx ++ tx_init) v, res with
     | None, None => true
     | Some (matched, tx'), Some (matched', caps, copies) =>
       Bool.eqb matched matched' && list_eqb opt_bytes_eqb (caps_of tx') caps
